@@ -11,7 +11,12 @@ elab "#audit " ns:ident : command => do
   let names := env.constants.fold (init := (#[] : Array Name)) fun acc n ci =>
     if nsName.isPrefixOf n && !n.isInternal then
       match ci with
-      | .thmInfo _ => acc.push n
+      | .thmInfo _ =>
+        -- equation lemmas generated for a definition (`f.eq_1`, `f.eq_def`) are not obligations
+        let isEqn := match n with
+          | .str p s => (s.startsWith "eq_") && (match env.find? p with | some (.defnInfo _) => true | _ => false)
+          | _ => false
+        if isEqn then acc else acc.push n
       | _ => acc
     else acc
   let sorted := names.qsort (fun a b => a.toString < b.toString)
